@@ -217,5 +217,36 @@ def rule_affine(ctx):
     return res.finish(1)
 
 
+def rule_extrema(ctx):
+    """'min-max scaling maps each non-constant column onto the requested range with both ends attained', 'max-abs gives
+    every non-zero column maximum absolute value one': the column minima / maxima the scales are computed from are real
+    extrema only if the running extremum starts from its identity element (rules/extrema.py)."""
+    from . import extrema
+    res = RuleResult("R-C16-extrema", "every running column/row extremum in the scalers starts from the identity element of its own operation (-inf/min_value for max, +inf/max_value for min) or from data")
+    F = ctx.facts()
+    n = 0
+    for fn in F.all_fns():
+        if fn["d"]["krate"] != "linfa_preprocessing" or not fn_file(fn).endswith(("linear_scaling.rs", "norm_scaling.rs", "whitening.rs")):
+            continue
+        key = fn_key(fn)
+        i = 0
+        for node, op, kind, text, what in extrema.sites(fn):
+            i += 1
+            v = extrema.verdict(op, kind)
+            if v is None:
+                continue
+            n += 1
+            inst = "%s : running %s #%d %s" % (key, op, i, what)
+            res.instance(inst)
+            if v:
+                res.ok()
+                res.sample({"site": inst, "start": text})
+            else:
+                res.violate("%s : extremum-start:%s#%d" % (key, op, i), "a running %s starts from `%s`, which is not the identity element of %s: for columns entirely on the other side of it (e.g. all-negative values against min_positive_value) the reported extremum is the start value, not a data value" % (op, text, op), fn_loc(fn, node["ln"]))
+    if n < 2:
+        res.missing_anchor("the column minimum / maximum folds of ScalingMethod::min_max (found %d)" % n)
+    return res.finish(2)
+
+
 def rules(tier):
-    return [rule_meta, rule_empty, rule_div, rule_affine]
+    return [rule_meta, rule_empty, rule_div, rule_affine, rule_extrema]
